@@ -110,7 +110,7 @@ func runC17(p *Plan) {
 				OpDeq2(p.Out, e, eo, v, b, seqForms[r.Intn(len(seqForms))], seqForms[r.Intn(3)])
 				OpCopyTo2(p.Out, e, eo, v, genSeq(r, eo.Type, r.Intn(3)), seqForms[r.Intn(3)], []Form{FormPtr, FormPtr, FormVal, FormForeign}[r.Intn(4)], bufClasses[r.Intn(4)])
 			}
-			OpReset(p.Out, e, v, []Form{FormPtr, FormPtr, FormVal, FormForeign}[r.Intn(4)])
+			OpReset(p.Out, e, v, []Form{FormPtr, FormPtr, FormVal, FormForeign, FormNilP}[r.Intn(5)])
 		}
 	}
 }
